@@ -5,6 +5,8 @@ sweep = sys.argv[1] if len(sys.argv) > 1 else "/tmp/wt/SWEEP.txt"
 NOTES = {
  "C03-A": "patch no longer applies: it was written against the tree before `fix:` f71a778 touched the same lines",
  "C20-B": "not reported (quick, thorough): Close freezes Err before the teardown; only failures that fire *after* Close began are lost, and the property (and the engine's documentation) allows those to be dropped, so no sound black-box oracle separates it from the unchanged tree",
+ "C15-G": "not reported: needs an unlink inside FileSystemDataStore.Update to fail (a fault below the store-call level, outside every listed quantifier; the filesystem hook only observes)",
+ "C02-H": "not reported by C02 (its quantifier has no faults); reported in the quick tier by C03 (pool phase, uneven blocks) and C19",
  "C15-F": "not reported by C15 (needs the writer's .tmp to vanish before Close, which is not a crash point); reported in the quick tier by C16 (`failclose` op: Close returns nil for a file that was never published)",
 }
 rows = {}
@@ -26,7 +28,7 @@ def idea(seed):
     return ""
 out = []
 out.append("# Seeded changes: what the checks report\n")
-out.append("Six realistic changes per property: `Cxx-A/B` (first session), `Cxx-C/D` and `Cxx-E/F` (second session; fresh sub-agents that were given only the property text — for E/F also its anchored mechanisms — and a scratch worktree). Each compiles, passes the pinned suite and ships a demonstration test that fails with the change and passes without it (`tools/confirm_seed.sh`; see each `NOTES.md` / `meta.json`). `tools/seedtest2.sh <patch> Cxx` applies one to a scratch worktree of `/repo` and points the check at it; `/repo` itself is never touched.\n")
+out.append("Eight realistic changes per property: `Cxx-A/B` (first session), `Cxx-C/D`, `Cxx-E/F` and `Cxx-G/H` (second session; fresh sub-agents that were given only the property text — from E on also its anchored mechanisms, for G/H the hint that the obvious sites were taken — and a scratch worktree). Each compiles, passes the pinned suite and ships a demonstration test that fails with the change and passes without it (`tools/confirm_seed.sh`; see each `NOTES.md` / `meta.json`). `tools/seedtest2.sh <patch> Cxx` applies one to a scratch worktree of `/repo` and points the check at it; `/repo` itself is never touched.\n")
 out.append("Last full sweep: %s, quick tier, `VERIF_SEED=1`, each seed against the check of the property it was written for (`tools/sweep_seeds.sh`; wall clock of the whole check, five sweeps in parallel).\n" % datetime.date.today().isoformat())
 out.append("| seed | own property's quick check | what the change is / note |\n|---|---|---|")
 hit = miss = na = 0
